@@ -7,8 +7,10 @@
 
    events
      Load     id, file, dec
-     Phase    src, dst, tag, targets (1-based sample indices), inp ("bam" | "vcf"), key (identifies the
-              phase input), exc, out, dec,
+     Phase    src, dst, tag, targets (1-based sample indices), inp ("bam" | "vcf"), snvs (--only-snvs), key
+              (identifies phase input and options), exc, out, dec,
+              skip per record: TRUE if this run does not support the record (multi-ALT, second record at a
+                   position, indel under --only-snvs) - known from the construction of the world
               P    the phasing the run handed to the writer (arguments of PhasedVcfWriter.write):
                    per sample, per record a statement [block, al] or << >>; block = 1-based position of
                    the leftmost variant of the component
@@ -22,8 +24,8 @@
                      convention (VcfModel!DecPS/DecHP on the raw text) and by whatshap's reader
      TagEquivalence  two runs on the same file with the same phase input and targets but different tags
                      decode to the same statements (sets, set names, ordered alleles)
-     NoStalePhase    target samples: the output states nothing but P: no differing statement in the other
-                     encoding, no statement in any encoding where P has none
+     NoStalePhase    target samples, EVERY record (also those the run skips): the output states nothing but P: no
+                     differing statement in the other encoding, no statement in any encoding where P has none
      DecodesCleanly  unless a non-target sample already carried the other encoding in the input, the
                      output can be read back (no MixedPhasingError or any other exception)
      VcfReproduces   phased VCF g as only phase input: every phase set of g with >= 2 shared heterozygous
@@ -68,7 +70,8 @@ Inherited(e) == LET src == files[e.src] IN
 GStmt(c) == IF DecPS(c) # NoPhase THEN DecPS(c) ELSE DecHP(c)
 Flip(al) == <<al[2], al[1]>>
 Usable(p) == p # NoPhase /\ Len(p.al) = 2 /\ p.al[1] # p.al[2]
-SharedHet(src, g, s) == { i \in Recs(src) : LET c == Call(src, s, i) IN
+SharedHet(e, src, g, s) == { i \in Recs(src) : LET c == Call(src, s, i) IN
+                             /\ ~e.skip[i]          \* a record this run supports (not multi-ALT / duplicate / indel under --only-snvs)
                              /\ FullyCalled(c) /\ Len(c.gt) = 2 /\ IsHet(c)
                              /\ Usable(GStmt(Call(g, s, i))) /\ SameBag(GStmt(Call(g, s, i)).al, c.gt) }
 SetsOf(g, s, H) == { { i \in H : GStmt(Call(g, s, i)).block = GStmt(Call(g, s, j)).block } : j \in H }
@@ -84,7 +87,7 @@ SetReproduced(e, g, s, H, B) ==
 VcfReproduces(e) ==
     e.inp = "vcf" =>
         \A s \in Tgt(e) :
-            LET H == SharedHet(files[e.src], e.g, s)
+            LET H == SharedHet(e, files[e.src], e.g, s)
                 Bs == SetsOf(e.g, s, H) IN
             FitsCap(Bs, H) => \A B \in Bs : Cardinality(B) >= 2 => SetReproduced(e, e.g, s, H, B)
 
